@@ -38,13 +38,13 @@ def src_noisy(n: int, seed: int):
     return [(f"noisy:{seed * 1000003 + i}", gen.noisy(seed * 7 + i, gen.doc(seed * 1000003 + i, "en", langs=langs)), "en") for i in range(n)]
 
 
-def record_all(sources, modes=("collect",)):
+def record_all(sources, modes=("collect",), listing=False):
     recs = []
     for name, s, dialect in sources:
         if R.source_is_path(s):
             continue            # known finding C01/source-names-existing-path: such a string is not parsed as text at all
         for m in modes:
-            recs.append(R.record(f"{name}|{m}", s, dialect, m))
+            recs.append(R.record(f"{name}|{m}", s, dialect, m, listing=listing and m == "collect"))
     return recs
 
 
